@@ -65,6 +65,8 @@ class Harness:
     expect_fail: bool = False
     # can `cargo kani playback` run it natively (no #[kani::stub] involved)?
     playback: bool = True
+    # ask Kani for the concrete kani::any() values of a counterexample (re-runs the harness) so that a native reproducer can use them
+    want_values: bool = False
     # seeds (mod n) for which this harness runs in the quick tier; None = always
     quick_seed_slot: Optional[tuple] = None  # (slot, nslots)
 
@@ -83,6 +85,8 @@ class Unit:
     package: Optional[str] = None
     # module path of the harness functions inside the generated crate ("verif::c18::"), needed by --exact
     harness_prefix: str = ""
+    # False when the harnesses rely on #[kani::stub] (stubs are not active in `cargo kani playback`)
+    playback: bool = True
 
 
 @dataclass
@@ -284,6 +288,15 @@ def run_unit(unit: Unit, tier: str, seed: int, workroot: Path, only: Optional[se
     lock = _unit_lock(unit)
     try:
         def work(i, grp):
+            try:
+                work_inner(i, grp)
+            except Exception as e:  # never lose a harness silently
+                import traceback
+                for h in grp:
+                    if h.name not in results:
+                        results[h.name] = HarnessResult(h.name, "error", detail=f"runner exception: {e}\n{traceback.format_exc()[-1500:]}")
+
+        def work_inner(i, grp):
             target = CACHE / "target" / f"{unit.name}-w{i}"
             export = gen_dir / f"kani-export-{i}.json"
             max_to = max(h.timeout_s for h in grp)
@@ -396,7 +409,12 @@ def concrete_playback(unit: Unit, crate_dir: Path, harness: str, workroot: Path)
     tests = re.findall(r"```\n(.*?)```", out, flags=re.S)
     # keep only the tests generated for failing assertions (not covers)
     fail_tests = [t for t in tests if "Check for `cover`" not in t]
-    res = {"tests": fail_tests, "reproduced": None, "detail": ""}
+    vals = []
+    for t in fail_tests[:1]:
+        for m in re.finditer(r"vec!\[([0-9,\s]*)\]", t):
+            body = m.group(1).strip()
+            vals.append([int(x) for x in body.split(",") if x.strip()] if body else [])
+    res = {"tests": fail_tests, "reproduced": None, "detail": "", "concrete_vals": vals}
     if not fail_tests:
         res["detail"] = "kani printed no concrete playback test"
         return res
